@@ -199,7 +199,7 @@ class Verdict:
     def finish(self):
         for k, v in self.seen_known.items():
             log('KNOWN-FINDING: property=%s key=%s %s (%d case(s) this run, e.g. %s)' %
-                (self.pid, k, self.known[k], len(v), str(v[0])[:300]))
+                (self.pid, k, self.known[k][:160], len(v), str(v[0])[:160]))
             self.ev.cov['known_findings_seen'].append({'key': k, 'cases': len(v)})
         self.ev.violations = len(self.new)
         if not self.new:
@@ -216,7 +216,7 @@ class Verdict:
             with open(path, 'w') as f:
                 json.dump({'property': self.pid, 'key': key, 'what': what, 'replay': replay}, f, indent=1, default=str)
             log('VIOLATION property=%s replay=%s' % (self.pid, path))
-            log('  key=%s %s' % (key, str(what)[:600]))
+            log('  key=%s %s' % (key, str(what)[:300]))
         return 1
 
 
